@@ -3289,6 +3289,7 @@ def call_site_roles(chk):
                f"parameters {missing} receive no argument and have no default: the call raises TypeError", **where)
         bound.append((kname, c0, c, formals, b))
     result_in_place(chk, cls, fn, bound, aliases, where)
+    scheme_selection(chk, cls, fn, init, sites, knames, aliases, where)
     # ---- scratch storage: the expressions bound to the work parameters, whatever they are
     work_actuals = {}
     for kname, c0, c, formals, b in bound:
@@ -3474,6 +3475,171 @@ def call_site_roles(chk):
             chk.ob("E2-interpolate-before-evaluate", interp[0], what, False,
                    f"the interpolant of f is written into `{wrong_dest[0]}` while the kernel is handed the coefficients of "
                    f"`{pol_recv}`: the feet take the values of a spline that does not represent the current f", **where)
+
+
+SCHEME_FLAG = "explicitTrap"
+
+
+def _flag_form(e, attrs, in_ctor):
+    """how the boolean expression `e` depends on the constructor argument `explicitTrap`:
+        (polarity, raw, issue)   polarity: e is true when the flag is a true value; raw: e IS the unconverted argument (any
+                                 object the caller handed in), otherwise a Python bool derived from it; issue: None, or
+                                 ("identity" | "equality", text) when on the way the unconverted argument was compared with
+                                 the singletons True / False by `is` / `==` (which is not its truth value)
+    None when `e` is not one of the modelled forms (name / attribute kept from the argument, bool(.), not ., comparison with
+    the constants True / False)."""
+    if isinstance(e, ast.Name):
+        return (True, True, None) if in_ctor and e.id == SCHEME_FLAG else None
+    if isinstance(e, ast.Attribute):
+        return attrs.get(src(e))
+    if isinstance(e, ast.Call) and isinstance(e.func, ast.Name) and e.func.id == "bool" and len(e.args) == 1 and not e.keywords:
+        r = _flag_form(e.args[0], attrs, in_ctor)
+        return None if r is None else (r[0], False, r[2])
+    if isinstance(e, ast.UnaryOp) and isinstance(e.op, ast.Not):
+        r = _flag_form(e.operand, attrs, in_ctor)
+        return None if r is None else (not r[0], False, r[2])
+    if isinstance(e, ast.Compare) and len(e.ops) == 1 and isinstance(e.ops[0], (ast.Is, ast.IsNot, ast.Eq, ast.NotEq)):
+        a, b = e.left, e.comparators[0]
+        if isinstance(a, ast.Constant) and isinstance(a.value, bool):
+            a, b = b, a
+        if not (isinstance(b, ast.Constant) and isinstance(b.value, bool)):
+            return None
+        r = _flag_form(a, attrs, in_ctor)
+        if r is None:
+            return None
+        pol = r[0] if b.value else not r[0]
+        if isinstance(e.ops[0], (ast.IsNot, ast.NotEq)):
+            pol = not pol
+        issue = r[2]
+        if r[1] and issue is None:
+            issue = ("identity" if isinstance(e.ops[0], (ast.Is, ast.IsNot)) else "equality", src(e))
+        return (pol, False, issue)
+    return None
+
+
+def scheme_selection(chk, cls, fn, init, sites, knames, aliases, where):
+    """E1-dispatch at the call sites of step(): the explicit kernel runs when the constructor argument `explicitTrap` is a
+    true value, the implicit one when it is a false value.  The condition each kernel call stands under is followed back to
+    the constructor argument through the attribute that keeps it (`_flag_form`)."""
+    import copy
+    what = f"{SCHEME_FLAG} true -> {knames[0]}, false -> {knames[1]}"
+    params = [a.arg for a in init.args.args] + [a.arg for a in init.args.kwonlyargs] if init is not None else []
+    if SCHEME_FLAG not in params:
+        chk.ob("E1-dispatch", fn, what, None, f"the constructor has no parameter `{SCHEME_FLAG}`: which condition selects the time "
+               "scheme is not decided", **where)
+        return
+    rebound = any(isinstance(n, ast.Name) and isinstance(n.ctx, ast.Store) and n.id == SCHEME_FLAG for n in ast.walk(init))
+    cls_stores = {}
+    for n in ast.walk(cls):
+        if isinstance(n, ast.Attribute) and isinstance(n.ctx, (ast.Store, ast.Del)) and src(n.value) == "self":
+            cls_stores[n.attr] = cls_stores.get(n.attr, 0) + 1
+    attrs = {}
+    if not rebound:
+        for st in init.body:
+            if isinstance(st, ast.Assign) and len(st.targets) == 1 and isinstance(st.targets[0], ast.Attribute) \
+                    and src(st.targets[0].value) == "self" and cls_stores.get(st.targets[0].attr) == 1:
+                r = _flag_form(st.value, {}, True)
+                if r is not None:
+                    attrs[src(st.targets[0])] = r
+    # the constructor restricts the type of the argument itself (then a comparison with the singletons may be exact)
+    typed = any(isinstance(c, ast.Call) and src(c.func) in ("isinstance", "type") and any(
+        isinstance(x, ast.Name) and x.id == SCHEME_FLAG for a_ in c.args for x in ast.walk(a_)) for c in ast.walk(init))
+    sub = _Subst(aliases)
+    originals = {id(x) for x in ast.walk(fn)}
+    for k_, kname in enumerate(knames):
+        calls = [c for kn_, c, _ab in sites if kn_ == kname]
+        if len(calls) != 1:
+            continue                                  # E2-arity has said so
+        c0 = calls[0]
+        conds = None
+        if id(c0) in originals and isinstance(c0.func, ast.Name):
+            conds = [(t, pol, kind) for t, pol, kind in guards_of(c0, stop=fn)]
+            if c0.func.id != kname:
+                g = c0.func.id
+                binds = [st for st in ast.walk(fn) if isinstance(st, ast.Assign) and len(st.targets) == 1
+                         and isinstance(st.targets[0], ast.Name) and st.targets[0].id == g]
+                mine = []
+                for st in binds:
+                    v = st.value
+                    if isinstance(v, ast.Name) and v.id == kname:
+                        mine.append(list(guards_of(st, stop=fn)))
+                    elif isinstance(v, ast.IfExp) and any(isinstance(x, ast.Name) and x.id == kname for x in (v.body, v.orelse)):
+                        mine.append([(v.test, isinstance(v.body, ast.Name) and v.body.id == kname, "ifexp")]
+                                    + list(guards_of(st, stop=fn)))
+                conds = conds + mine[0] if len(mine) == 1 else None
+        if conds is None:
+            # the kernel is an element of the tuple a read-only property returns case by case (`property_cases`): the
+            # condition of the case that names this kernel
+            found = []
+            for attr in sorted({n.attr for n in ast.walk(fn) if isinstance(n, ast.Attribute) and isinstance(n.ctx, ast.Load)
+                                and src(n.value) == "self"}):
+                cases = property_cases(fn, attr)
+                if not cases or len(cases) != 2 or any(t is None for t, _v in cases):
+                    continue
+                hit = [t for t, v in cases if isinstance(v, ast.Tuple) and any(isinstance(x, ast.Name) and x.id == kname for x in v.elts)]
+                other = [v for t, v in cases if isinstance(v, ast.Tuple) and any(isinstance(x, ast.Name) and x.id in knames
+                                                                                 and x.id != kname for x in v.elts)]
+                if len(hit) == 1 and len(other) == 1:
+                    found.append(hit[0])
+            if len(found) == 1:
+                try:
+                    conds = [(ast.parse(found[0], mode="eval").body, True, "if")] + [
+                        g_ for g_ in guards_of(c0, stop=fn)]
+                except SyntaxError:
+                    conds = None
+        if conds is None:
+            chk.ob("E1-dispatch", c0, what, None, f"the condition under which step() reaches {kname} is not followed (the kernel "
+                   "is selected by a property / a table / more than one binding): not decided", **where)
+            continue
+        if not conds:
+            chk.ob("E1-dispatch", c0, what, None, f"the call of {kname} stands under no condition in step(): how the time "
+                   "scheme is selected is not decided", **where)
+            continue
+        forms = []
+        for t, pol, kind in conds:
+            r = _flag_form(sub.visit(copy.deepcopy(t)), attrs, False) if kind in ("if", "ifexp") else None
+            if r is None:
+                forms = None
+                chk.ob("E1-dispatch", c0, what, None,
+                       f"the call of {kname} stands under `{src(t)}`, which is not a recognised test of an attribute that the "
+                       f"constructor binds once to `{SCHEME_FLAG}` (plain, bool(.), not ., compared with True / False): not decided",
+                       **where)
+                break
+            forms.append((r[0] == pol, r[2], t))
+        if forms is None:
+            continue
+        if len({f_[0] for f_ in forms}) != 1:
+            chk.ob("E1-dispatch", c0, what, None, f"the conditions around the call of {kname} contradict one another: not decided",
+                   **where)
+            continue
+        want = k_ == 0
+        issue = next((f_[1] for f_ in forms if f_[1] is not None), None)
+        tests = " and ".join(f"`{src(t)}`" + ("" if pol else " false") for t, pol, _k in conds)
+        if forms[0][0] != want:
+            # AUDIT: the attribute tested is bound exactly once in the class, in the constructor, to the (possibly negated /
+            # converted) parameter `explicitTrap`, which is not rebound; every condition around the call is such a test and
+            # they agree; `*_expl` is the Heun kernel and `*_impl` the fixed-point kernel by the F1 rules of this check
+            chk.ob("E1-dispatch", c0, what, False,
+                   f"{kname} is reached under {tests}, that is when `{SCHEME_FLAG}` is {'false' if want else 'true'}: the two time "
+                   "schemes are exchanged with respect to the constructor argument", **where)
+        elif issue is not None and issue[0] == "identity" and not typed:
+            # AUDIT: the constructor keeps the argument as it was given (no bool(.), no isinstance / type test on it anywhere
+            # in the constructor) and the comparison `is` with a singleton is true for that one object only: a true value that
+            # is not the object True (numpy.bool_ from a comparison, 1) takes the other arm
+            chk.ob("E1-dispatch", c0, what, False,
+                   f"the scheme is selected by `{issue[1]}`, an IDENTITY test on the argument `{SCHEME_FLAG}`, which the constructor "
+                   "keeps unconverted: a true (false) value that is not the singleton True (False) - numpy.bool_, 1 (0) - selects "
+                   "the other scheme than the one asked for (an object built with explicitTrap=numpy.bool_(True) runs the implicit "
+                   "fixed-point iteration, or the reverse); only bool(.) of the argument, or its truth value, is the documented "
+                   "flag", **where)
+        elif issue is not None:
+            chk.ob("E1-dispatch", c0, what, None,
+                   f"the scheme is selected by `{issue[1]}` on the argument `{SCHEME_FLAG}` that the constructor keeps unconverted"
+                   + (" (but tests its type)" if typed else "") + ": the comparison agrees with the truth value for bool, "
+                   "numpy.bool_, 0 and 1 and differs for other true values: not decided", **where)
+        else:
+            chk.ob("E1-dispatch", c0, what, True,
+                   f"{kname} is reached under {tests}, the truth value of the constructor argument `{SCHEME_FLAG}`", **where)
 
 
 def iteration_bound(chk, mod):
